@@ -330,6 +330,7 @@ def register(reg):  # noqa: F811
     register_compat(reg)
     register_eq_transform(reg)
     register_canonical_callers(reg)
+    register_nogrid(reg)
 
 
 _BG = {"name": "grid-layouts", "script": "replay/drivers/bnd_grids.py", "args": ["--json"], "timeout": 3000}
@@ -493,3 +494,33 @@ def install_eq(ex):
         return None
 
     ex.hooks.setdefault("eq", []).append(grid_eq)
+
+
+# =================================================================================================
+# NoGrid.compatible_with / __eq__ (C07.1, C15.3): grid-less layouts are compatible iff their data shapes are equal
+# =================================================================================================
+def register_nogrid(reg):
+    NG = "finam.data.grid_spec.NoGrid"
+    reg.field("_data_shape", TOpt(TObj("shape")), "NoGrid")
+    reg.field("_dim", Int, "NoGrid")
+    shp = lambda ctx, g: ctx.get(g, "NoGrid._data_shape")
+    others = {
+        "NoGrid": sv.SRef(z3.Int("ng.other"), "NoGrid", True),
+        "UniformGrid": sv.SRef(z3.Int("ng.other"), "UniformGrid", True),
+        "UnstructuredPoints": sv.SRef(z3.Int("ng.other"), "UnstructuredPoints", True),
+        "None": sv.NONE,
+    }
+    for kn, o in others.items():
+        def spec(ctx, o=o, kn=kn):
+            if kn != "NoGrid":
+                return z3.BoolVal(False)
+            return sv.value_eq(shp(ctx, ctx.self), shp(ctx, o))
+
+        reg.add(Contract(f"{NG}.compatible_with", self_cls="NoGrid", props=["C07.1", "C15.3"], params={"other": o, "check_location": Bool},
+                         result=Bool, pure=True, modifies=lambda ctx: [],
+                         ensures=lambda ctx, r, spec=spec: {"compatible <=> other is a NoGrid of the same data shape": r.e == spec(ctx)},
+                         name=f"NoGrid.compatible_with<{kn}>", primary=False))
+        reg.add(Contract(f"{NG}.__eq__", self_cls="NoGrid", props=["C07.1", "C15.3"], params={"other": o},
+                         result=Bool, pure=True, modifies=lambda ctx: [],
+                         ensures=lambda ctx, r, spec=spec: {"equal <=> other is a NoGrid of the same data shape": r.e == spec(ctx)},
+                         name=f"NoGrid.__eq__<{kn}>", primary=False))
